@@ -28,7 +28,7 @@ func init() { cli.Register("c09-scenarios", printScenarios) }
 type Scenario struct {
 	Proto   string `json:"proto"`   // redis | tcp
 	Backend string `json:"backend"` // responsive | silent | closed
-	When    string `json:"when"`    // immediately | port-busy | port-busy-immediately | idle-conns | request-waiting | refresh-waiting | drain-then-stop
+	When    string `json:"when"`    // immediately | port-busy | port-busy-immediately | idle-conns | request-waiting | pipeline-waiting | refresh-waiting | drain-then-stop
 	Conns   int    `json:"conns"`
 	DelayUs int    `json:"delayUs"` // pause between Start and Stop for "immediately"
 }
@@ -65,6 +65,9 @@ func allScenarios(thorough bool) []Scenario {
 	}
 	for _, b := range backends {
 		out = append(out, Scenario{Proto: "redis", Backend: b, When: "request-waiting", Conns: 1})
+		// more outstanding requests than the session's reply queue holds (32): the session's
+		// reader is blocked handing a request to its writer, not reading the connection
+		out = append(out, Scenario{Proto: "redis", Backend: b, When: "pipeline-waiting", Conns: 1})
 		out = append(out, Scenario{Proto: "redis", Backend: b, When: "refresh-waiting"})
 	}
 	return out
@@ -393,7 +396,7 @@ func runScenario(job *Job) (res Result) {
 			}
 			time.Sleep(20 * time.Millisecond)
 		}
-	case "request-waiting":
+	case "request-waiting", "pipeline-waiting":
 		if !ready() || !connect(1) {
 			p.Stop()
 			return
@@ -414,6 +417,11 @@ func runScenario(job *Job) (res Result) {
 			before += len(n.Records())
 		}
 		request(peers[0], "waiting", false)
+		if s.When == "pipeline-waiting" {
+			for i := 0; i < 47; i++ {
+				request(peers[0], fmt.Sprintf("waiting%d", i), false)
+			}
+		}
 		if s.Backend == "silent" {
 			// the request must have reached the backend and be waiting for its reply
 			if !waitUntil(3*time.Second, func() bool {
